@@ -149,13 +149,26 @@ def methods(ctx, world):
     allowed_alias = {"flatten": "ravel"}
     nt = t.notrace_quals("autograd.core.VJPNode")
     n = 0
+    undecided_methods = []
     for cls, name, tgt, m, site, expr in t.setattrs:
         if not cls.endswith("ArrayBox"):
             continue
         n += 1
         inst = f"ArrayBox.{name}"
         if tgt is None:
+            # notrace_primitive(getattr(np.ndarray, name)) and similar: a freshly wrapped external, not the exported function
+            v = expr
+            if isinstance(v, ast.Call) and v.args:
+                f = world.repo.resolve_expr(m, v.func)
+                a0 = v.args[0]
+                if isinstance(a0, ast.Call) and isinstance(a0.func, ast.Name) and a0.func.id == "getattr" and len(a0.args) == 2 and isinstance(a0.args[1], ast.Constant):
+                    a0 = ast.Attribute(value=a0.args[0], attr=a0.args[1].value, ctx=ast.Load())
+                inner = world.repo.resolve_expr(m, a0)
+                if f is not None and inner is not None and inner.kind == "ext":
+                    ctx.fail("A1.methods", inst, f"method:{name}->{f.qual.rsplit('.', 1)[-1]}({inner.qual})", loc_of(m, site), f"ArrayBox.{name} is bound to a freshly wrapped `{inner.qual}` ({f.qual.rsplit('.', 1)[-1]}), not to the exported function anp.{name}: a different callable (an unbound ndarray method rejects scalar values; a new primitive object has no derivative rules)", f"x.{name}() on a traced value whose raw value is a NumPy scalar, or differentiation through the method form")
+                    continue
             ctx.ob("A1.methods", inst, None, loc_of(m, site))
+            undecided_methods.append(inst)
             continue
         if tgt.kind == "wrapped":
             want = allowed_alias.get(name, name)
@@ -178,7 +191,7 @@ def methods(ctx, world):
                 ctx.ob("A1.methods", inst, True, loc_of(m, site), sample=f"every return of {tgt.qual} calls anp.{name}")
             else:
                 ctx.fail("A1.methods", inst, f"method:{name}->{tgt.qual}", loc_of(m, site), f"{tgt.qual} does not return anp.{name}(self, ..., **kwargs) on every path (a path drops the receiver, calls another function or loses the keyword options)", f"x.{name}(..., option=...) on a traced array, compared with the same call on an ndarray")
-    ctx.floor("A1.methods instances", n, 28)
+    ctx.floor("A1.methods decided instances", n - len(undecided_methods), 28)
 
 
 def _wrapper_reaches(world, ref, name):
